@@ -126,13 +126,6 @@ partial def showV : Nx.RmcRequest.Val → String
   | .obj fs => "(" ++ ",".intercalate (fs.map showV) ++ ")"
   | .any n fs => "A" ++ hexOut n ++ "(" ++ ",".intercalate (fs.map showV) ++ ")"
 
-/-- how the `except` clauses of `handle_request` see the exception -/
-def excOf : Err → Exc
-  | .key => .keyError
-  | .type => .typeError
-  | .index => .indexError
-  | _ => .other
-
 end Rq
 
 def parseNatsSep (sep : String) (r : List Char) : Option (List Nat) :=
@@ -278,10 +271,7 @@ def parseExtractIn (env : Nx.RmcRequest.Env) (body : Bytes) (s : String) : Optio
   if s = "ok" then some none
   else if s.startsWith "m0:" ∨ s.startsWith "m1:" then
     match Rq.pSchema (s.drop 3).toString with
-    | some tys =>
-      match Nx.RmcRequest.readRequest env (s.startsWith "m1:") tys body with
-      | .ok _ => some none
-      | .error e => some (some (Rq.excOf e))
+    | some tys => some (Nx.RmcRequest.extractOf env (s.startsWith "m1:") tys body)
     | none => none
   else (parseExc s).map some
 
@@ -375,7 +365,7 @@ def stepLine (d : D) (line : String) : D × String :=
       if hdr = "0" ∨ hdr = "1" then
         (d, match Nx.RmcRequest.readRequest d.env (hdr = "1") tys b with
             | .ok vs => "ok " ++ ",".intercalate (vs.map Rq.showV)
-            | .error e => "err " ++ showExc (Rq.excOf e))
+            | .error e => "err " ++ showExc (Nx.RmcRequest.excOf e))
       else (d, "bad-op")
     | _, _ => (d, "bad-op")
   | ["sreq", h, ex, u] =>
